@@ -33,9 +33,19 @@ pub fn index_expr(f: &[&str]) -> String {
   if f[4] == "-" { format!("m[{}]", sel_src(f[3])) } else { format!("m[{},{}]", sel_src(f[3]), sel_src(f[4])) }
 }
 
+/// selectors written in place, or (optional sixth field, one letter per selector: `l` in place, `v` a
+/// variable, `m` a mutable variable) given a name first; `:` is always written in place
 pub fn source(case: &str) -> String {
   let f: Vec<&str> = case.split('\t').collect();
-  format!("{}{}", operand_def("m", f[1], f[2], false), index_expr(&f))
+  let forms: Vec<char> = if f.len() > 5 { f[5].chars().collect() } else { vec![] };
+  let mut defs = operand_def("m", f[1], f[2], false);
+  let mut sel = |name: &str, s: &str, i: usize| -> String {
+    let c = forms.get(i).copied().unwrap_or('l');
+    if c == 'l' || s == "a" { return sel_src(s); }
+    defs.push_str(&format!("{}{} := {}\n", if c == 'm' { "~" } else { "" }, name, sel_src(s)));
+    name.to_string() };
+  let e = if f[4] == "-" { format!("m[{}]", sel("ia", f[3], 0)) } else { let a = sel("ia", f[3], 0); let b = sel("ib", f[4], 1); format!("m[{},{}]", a, b) };
+  format!("{}{}", defs, e)
 }
 
 pub fn exec(case: &str) -> String {
@@ -142,6 +152,14 @@ pub fn generate(seed: u64, thorough: bool, sink: &mut Sink) -> Vec<String> {
         sink.hit(&format!("2d:{}:{}:{}:{}", sname, c1, c2, if bad.starts_with("bad") { "oob" } else { "ok" }));
       }
     }}
+  }
+  // how the selectors are written: half of the cases name them first (immutable or mutable variables)
+  let mut frng = Rng::new(seed ^ 0x5e1ec7);
+  for c in cases.iter_mut() {
+    if frng.chance(1, 2) { sink.hit("selectors:in-place"); continue; }
+    let forms: String = (0..2).map(|_| *frng.pick(&['l', 'v', 'v', 'm'])).collect();
+    sink.hit(&format!("selectors:{}", forms));
+    c.push('\t'); c.push_str(&forms);
   }
   sink.sample(cases[0].clone()); sink.sample(cases[cases.len() / 2].clone()); sink.sample(cases[cases.len() - 1].clone());
   cases
